@@ -229,6 +229,24 @@ theorem normalize_rows (a : Mat) (i j : Nat) :
 
 example : normalize1 ⟨2, 2, [[1, -3], [0, 0]]⟩ = ⟨2, 2, [[1/4, -3/4], [0, 0]]⟩ := by decide +kernel
 
+/-- **get_norms**: `p = 1` gives `Σ_j |a_ij|`, `p = 2` the square root (external) of `Σ_j a_ij²` -/
+theorem get_norms_def (a : Mat) (i : Nat) :
+    vget (norms1 a) i = sumTo a.nCol (fun j => |a.get i j|) ∧
+    vget (norms2sq a) i = sumTo a.nCol (fun j => a.get i j * a.get i j) :=
+  ⟨vget_norms1 a i, vget_norms2sq a i⟩
+
+/-- **normalize(matrix, p=2)** under the contract of `np.sqrt` (`s_i ≥ 0`, `s_i² = Σ_j a_ij²`): rows of 2-norm 1,
+null rows stay null, every row a non-negative multiple of the input row -/
+theorem normalize_rows_p2 (a : Mat) (s : Vec) (i : Nat) (hs0 : 0 ≤ vget s i)
+    (hs : vget s i * vget s i = vget (norms2sq a) i) :
+    (sumTo a.nCol (fun j => (normalize2 a s).get i j * (normalize2 a s).get i j)
+        = if vget (norms2sq a) i = 0 then 0 else 1) ∧
+    (∀ j, (normalize2 a s).get i j * vget s i = a.get i j) ∧
+    (∀ j, 0 ≤ (normalize2 a s).get i j * a.get i j) := normalize2_spec a s i hs0 hs
+
+example : (0 : Rat) ≤ vget [5, 0] 0 ∧ vget [5, 0] 0 * vget [5, 0] 0 = vget (norms2sq ⟨2, 2, [[3, -4], [0, 0]]⟩) 0 := by
+  decide +kernel
+
 /-! ## ★ laplacian_eq, directed2undirected_denote, bipartite conversions, tfidf_eq_def -/
 
 /-- **laplacian_eq D − A**: `get_laplacian` refuses non-square input; otherwise its entries are
